@@ -54,7 +54,9 @@ def check_one(args):
                 continue
             if prev is not None:
                 r = tvsmt.bisim(autos[prev], autos[s], st)
-                if r is not None:
+                if r is not None and r.get('kind') in ('unknown', 'relation too large'):
+                    res['problems'].append({'kind': 'unknown', 'what': 'bisimulation %s/%s: %s' % (prev, s, r['kind']), 'word': []})
+                elif r is not None:
                     res['problems'].append({'kind': 'stage', 'what': 'stage %s and stage %s accept different languages (%s)' % (prev, s, r.get('kind')), 'word': r.get('word', [])})
             prev = s
     res['stats'] = st.__dict__
